@@ -275,6 +275,10 @@ def oracle_c08(tr: Trace):
             k = j
             continue
         k += 1
+    advanced = any(st.tag == 5 for st in tr.steps)
+    if not advanced and sum(1 for e in eof_list if e["cond"] == 0) > 1:
+        raise Failure(f"C08 the EOF PDU was emitted {sum(1 for e in eof_list if e['cond'] == 0)} times without any timer expiry: "
+                      f"the source did not resume where it was after a retransmission")
     if seg and seg >= 1:
         exp = expected_tiles(data, 0, size, seg)
         if original != exp[:len(original)]:
@@ -282,6 +286,51 @@ def oracle_c08(tr: Trace):
         for e in eof_list:
             if e["cond"] == 0 and (e["fsize"] != size or (remote["cktype"] in (0, 2, 3, 15) and e["cksum"] != c09.expected(remote["cktype"], data))):
                 raise Failure("C08 EOF changed after retransmissions")
+
+
+def multi_nak_source_case(cfg: Cfg, data, schedule, ack_eof_after=None, tag="c08m"):
+    """schedule = [(empty calls before, requests)] - NAKs arriving in different steps of the sender; optionally the
+    ACK(EOF) is delivered after the given number of NAKs so that WAITING_FOR_FINISHED is reached too."""
+    w = World(cfg, tag)
+    try:
+        start_transfer(w, data)
+        s = w.src
+
+        def pump():
+            s.sm(None)
+            while s.get() is not None:
+                pass
+
+        def inject(kind, body):
+            conf = s.h.pdu_conf
+            hdr = [1, int(conf.trans_mode), int(bool(conf.crc_flag)), 0, conf.source_entity_id.value,
+                   conf.dest_entity_id.value, max(conf.source_entity_id.byte_len, 1), conf.transaction_seq_num.value,
+                   max(conf.transaction_seq_num.byte_len, 1)]
+            try:
+                pdu = codec.reparse(codec.build_pdu([kind] + hdr + body, w.pm))
+            except Exception:  # noqa: BLE001
+                return
+            s.sm(pdu)
+            while s.get() is not None:
+                pass
+        for i, (k, reqs) in enumerate(schedule):
+            for _ in range(k):
+                if s.h.state.value == 0:
+                    break
+                pump()
+            if s.h.state.value == 0:
+                break
+            if ack_eof_after is not None and i == ack_eof_after and s.h.step.value == 7:
+                inject(codec.K_ACK, [4, 0, 1])
+            inject(codec.K_NAK, [0, len(data), len(reqs)] + [x for r in reqs for x in r])
+            pump()
+        for _ in range(len(data) + 4):
+            if s.h.state.value == 0:
+                break
+            pump()
+        return ("source", s.ops, s.obs)
+    finally:
+        w.close()
 
 
 def nak_source_case(cfg: Cfg, data, k_calls, reqs_list, tag="c08"):
@@ -356,6 +405,18 @@ def c08_cases(tier, rng):
             reqs_list.append(rq)
         cfg = campaign.rand_cfg(rng, mode=0, req_mode=None, max_seg=seg, max_packet=64, ack_limit=5)
         cases.append((cfg, data, rng.randint(0, size + 3), reqs_list))
+    # NAKs arriving in different steps of one transfer (sending file data, awaiting the EOF ACK, awaiting Finished)
+    for _ in range(120 if tier == "quick" else 1500):
+        size = rng.choice([4, 5, 8, 9, 13])
+        data = bytes(rng.getrandbits(8) for _ in range(size))
+        seg = rng.choice([2, 3, 4])
+        nseg = (size + seg - 1) // seg
+        sched = []
+        for _ in range(rng.randint(2, 4)):
+            a = rng.randint(0, size - 1); b = rng.randint(a + 1, size)
+            sched.append((rng.choice([0, 1, 2, nseg, nseg + 1, nseg + 2]), [(a, b)] if rng.random() < 0.8 else [(0, 0)]))
+        cfg = campaign.rand_cfg(rng, mode=0, req_mode=None, max_seg=seg, max_packet=64, ack_limit=5)
+        cases.append(("multi", cfg, data, sched, rng.choice([None, 1, 2])))
     return cases
 
 
